@@ -72,7 +72,7 @@ def check(ctx):
             docset = []
             for fname, d, local in ds:
                 name, d2 = variants(rng, d, fname)
-                if any(name == n for n, _ in docset): name = "x" + name
+                while any(name == n for n, _ in docset): name = "x" + name
                 docset.append((name, d2))
             shutil.rmtree(work, ignore_errors=True); os.makedirs(work)
             for name, d in docset:
@@ -109,7 +109,7 @@ def check(ctx):
             out, res = parsecmp.impl_parse(work, files)
             if out[0] == "ok":
                 want = []
-                for n, d in sorted(docset):
+                for n, d in sorted(docset, key=lambda x: x[0]):
                     for m in d.get("models") or []:
                         a = dict(m["attrs"])
                         want.append([uaconv.opt(a.get("ModelUri")), uaconv.opt(a.get("PublicationDate")), uaconv.opt(a.get("Version")),
